@@ -1,6 +1,7 @@
 #!/bin/bash
 # runs every thorough tier one after the other; logs under /verif/.logs
-cd /verif
+cd "${VERIF_DIR:-/verif}"
+mkdir -p .logs
 for p in ${PROPS:-C01 C02 C03 C04 C05 C06 C07 C08 C09 C10 C11 C12 C13 C14 C15 C16 C17 C19 C20}; do
   ./check $p thorough > .logs/thorough-$p.log 2>&1
   echo "$p exit=$? $(grep '^simrun: C' .logs/thorough-$p.log | tail -1)" >> .logs/thorough-summary.log
